@@ -174,7 +174,11 @@ func compile(g *lookup, tok *token, optimize bool) (ins []instruction, slots int
 func (c *compiler) run(tok *token) (ins []instruction, slots int, err error) {
 	defer func() {
 		if r := recover(); r != nil {
-			err = fmt.Errorf("%v: %v", c.cur.Pos, r)
+			if c.cur != nil {
+				err = fmt.Errorf("%v: %v", c.cur.Pos, r)
+			} else {
+				err = fmt.Errorf("%v", r)
+			}
 		}
 	}()
 	res := c.optimize(c.compileAll(tok.Tokens))
@@ -283,6 +287,9 @@ var builtinMap = map[string]code{
 }
 
 func (c *compiler) compile(tok *token) []instruction {
+	if tok == nil {
+		panicf("missing operand")
+	}
 	c.cur = tok
 	var res []instruction
 	switch tok.Symbol {
